@@ -497,6 +497,7 @@ func RunC07(c *Ctx) {
 	// under the engine's commit monitor a compaction either fails or commits a table with
 	// exactly the content of its inputs - a read error never becomes a shorter table
 	e := newEngRunner(c)
+	e.compactionOwned = true
 	defer e.cleanup()
 	idx := 0
 	for oi, op := range []string{"compactall", "autocompact", "cr01", "compactexpiry", "add", "addbig"} {
